@@ -164,7 +164,7 @@ def modelOpt (line : String) : Option String := do
 
 def isCase (line : String) : Bool :=
   match Sexp.parse line with
-  | some (.list (.atom h :: _)) => ["direct", "core", "bridge", "jbridge", "law", "comm", "hosts"].contains h
+  | some (.list (.atom h :: _)) => ["direct", "core", "bridge", "jbridge", "law", "comm", "hosts", "ext"].contains h
   | _ => false
 
 def model (line : String) : String :=
